@@ -580,7 +580,7 @@ def handle_crashes(ctx, binary, crashes, cases):
 def run(ctx):
     binary = vlib.build(ctx, "c17")
     rng = random.Random(ctx.seed * 1000003 + 17)
-    n = 1200 if ctx.thorough else 260
+    n = 1200 if ctx.thorough else 200
     deadline = 10
     cases = {}
     for i in range(1, n + 1):
